@@ -651,6 +651,15 @@ class Engine(object):
             elems = tuple(('tuple', (C(i), x)) for i, x in enumerate(itval[2][0][1]))
             return self._loop_exact(elems, st, target, body, orelse, node, body_fn)
         tr = st.facts.get('truth', {}).get(itval)
+        if tr is None and itval[0] == 'call' and itval[1][0] == 'lib' and itval[1][1] in ('enumerate', 'iter', 'list', 'tuple', 'reversed', 'sorted') \
+                and len(itval[2]) == 1 and not itval[3]:
+            # enumerate(x) / list(x) ... are empty exactly when x is
+            inner = itval[2][0]
+            tr2 = st.facts.get('truth', {}).get(inner)
+            if tr2 is True:
+                known_nonempty = True
+            elif tr2 is False and inner[0] in ('param', 'tuple', 'list', 'dict'):
+                known_empty = True
         if empty_literal(itval):
             known_empty = True
         if tr is True:
